@@ -48,6 +48,11 @@ func (e *cliEnv) prepare() {
 	w("guest", part)
 	w("guest2", pbat)
 	w("two", append(append([]byte(nil), phix...), part...))
+	// secondary inputs with the SAME residues as "part" but a different feature table / record framing
+	w("partB", bytes.Replace(part, []byte("/product=\"major transcript\""), []byte("/product=\"minor transcript\""), 1))
+	// a feature with two values of one qualifier (the value separator of gts query shows in the output)
+	w("partD", bytes.Replace(part, []byte("/product=\"major transcript\"\n"), []byte("/product=\"major transcript\"\n                     /note=\"alpha\"\n                     /note=\"beta\"\n"), 1))
+	w("partC", bytes.Replace(part, []byte("     gene            16..>133"), []byte("     gene            26..>133"), 1))
 	w("trunc", phix[:len(phix)*6/10])
 	w("table1", []byte("     gene            100..200\n                     /gene=\"vf1\"\n"))
 	w("table2", []byte("     CDS             complement(300..420)\n                     /product=\"vf2\"\n     gene            10..20\n"))
@@ -212,6 +217,10 @@ func cliMain(args []string) {
 					runMultiSite(env, c, emit)
 				} else if asStr(c["fam"]) == "stream" {
 					runStream(env, c, emit)
+				} else if asStr(c["fam"]) == "clisearch" {
+					runCliSearch(env, c, emit)
+				} else if asStr(c["fam"]) == "clipipe" {
+					runCliPipe(env, c, emit)
 				}
 			}
 		}
